@@ -384,3 +384,34 @@ Example C12_ex_roundtrip :
   parse_score (score_to_bytes SNegInf) = Some SNegInf /\
   parse_score (score_to_bytes (SFin 10 1)) = Some (SFin 1 0) /\ snormal (SFin (-25) 1).
 Proof. vm_compute. repeat split; try reflexivity; try (intros H; discriminate H). intros _ H; discriminate H. Qed.
+
+(* ---------------------------------------------------------------- ZRANGE options that are not supported
+   BYSCORE, BYLEX and LIMIT (and any word other than WITHSCORES / REV) anywhere among the options:
+   the reply is an error and nothing changes, whatever the key holds (missing, other type, sorted
+   set) and whatever start and stop are. *)
+Theorem C12_zrange_unsupported_option_rejected : forall (d : db) (name k a b : bytes) (optl : list bytes),
+  existsb (fun w => negb (zrange_supported w)) optl = true ->
+  exec_zrange d (name :: k :: a :: b :: optl) = (err_other, d).
+Proof. exact exec_zrange_unsupported. Qed.
+Print Assumptions C12_zrange_unsupported_option_rejected.
+
+Theorem C12_zrange_by_words_unsupported :
+  forallb (fun w => negb (zrange_supported w))
+          [B "byscore"; B "BYSCORE"; B "bylex"; B "ByLex"; B "limit"; B "LIMIT"] = true.
+Proof. exact zrange_by_words_unsupported. Qed.
+Print Assumptions C12_zrange_by_words_unsupported.
+
+(* conversely an option list of WITHSCORES / REV words only is accepted, and the accepted options
+   never carry a BYLEX or LIMIT flag (the two hypotheses of C12_zrange_sorted_exact always hold) *)
+Theorem C12_zrange_options_exact : forall (l : list bytes),
+  (forallb zrange_supported l = true -> exists o, zrange_opts l ropts0 = ROk o) /\
+  (forall o, zrange_opts l ropts0 = ROk o -> r_bylex o = false /\ r_limit o = false) /\
+  zrange_opts l ropts0 <> RByScore.
+Proof. exact zrange_options_exact. Qed.
+Print Assumptions C12_zrange_options_exact.
+
+Example C12_ex_byscore_rejected :
+  fst (cmd d312 [B "zrange"; B "z"; B "0"; B "10"; B "BYSCORE"]) = err_other /\
+  fst (cmd d312 [B "zrange"; B "z"; B "0"; B "1"; B "rev"; B "limit"; B "0"; B "1"]) = err_other /\
+  fst (cmd d312 [B "zrange"; B "nokey"; B "a"; B "b"; B "bylex"]) = err_other.
+Proof. vm_compute. repeat split; reflexivity. Qed.
